@@ -865,6 +865,35 @@ func (s *mvSess) dropPrefix(ws []string, emit func(string, string), fail func(st
 		return
 	}
 	emit(op, "ok")
+	// events: the unfiltered memtable flush(es), then one same-level compaction per table group
+	// (levels bottom-up), then the L0 -> Lbase compaction. Between the flushes and the
+	// compactions a `dropplan` line asks the model which groups it expects.
+	evs := badger.VerifTakeEvents()
+	var flushes, comps []badger.VCompactEvent
+	for _, ev := range evs {
+		if ev.Kind == "flush" {
+			flushes = append(flushes, ev)
+		} else {
+			comps = append(comps, ev)
+		}
+	}
+	badger.VerifPutBackEvents(flushes)
+	s.emitEventsX(emit, fail, "", true)
+	if len(evs) > 0 {
+		var plan []string
+		cur := -1
+		for _, ev := range comps {
+			if ev.ThisLevel == ev.NextLevel && ev.ThisLevel >= 1 && len(ev.TopIDs) == 0 {
+				if ev.ThisLevel != cur {
+					plan = append(plan, fmt.Sprintf("L%d:", ev.ThisLevel))
+					cur = ev.ThisLevel
+				}
+				plan[len(plan)-1] += "[" + joinU64(ev.BotIDs) + "]"
+			}
+		}
+		emit("dropplan "+strings.Join(ws, " ")+" ev=1", "plan "+strings.Join(plan, ";"))
+	}
+	badger.VerifPutBackEvents(comps)
 	s.emitEventsX(emit, fail, "", true)
 	emit("dump", s.dump())
 	s.judgeStructure(fail)
